@@ -42,7 +42,7 @@ def mux_roles(rep, rule, c, half):
     r.Lr = c.t.loops[next(iter(inner_loops))]
     want_iter = c.norm(('call', ('attr', r.chunk, 'registers'), (), ()))
     if c.norm(r.Lr.iter) != want_iter:
-        rep.bad(rule, site, "inner loop iterates the registers of the same chunk",
+        rep.unk(rule, site, "inner loop iterates the registers of the same chunk",
                 f"inner loop iterates {ir.show(c.norm(r.Lr.iter))}; expected {ir.show(want_iter)}")
         return None
     r.rng = ('item', r.Lr.id, ())
